@@ -203,13 +203,18 @@ theorem resetDefault_acyclic (env : Env) (rk : String → Nat) (hac : EnvAcyclic
           have hlt := hfs f (by simp) s ifs (.inr ⟨n, hty⟩) hfind
           exact ihF (rk s) G ifs _ (hac s ifs hfind).2 (by omega) (by omega)
 
-/-- `ResetDefault` of a struct of an acyclic schema: any two fuels above `env.length` agree -/
+/-- `ResetDefault` of a struct of an acyclic schema: any two fuels above the rank of the struct
+    (its by-value nesting depth, at most `env.length`) agree -/
 theorem resetDefault_stable_acyclic (env : Env) (rk : String → Nat) (hac : EnvAcyclic env rk)
     (S : String) (fs : List Field) (hfind : env.find S = some fs) (vs : List Val) (F F' : Nat)
-    (hF : env.length + 1 ≤ F) (hF' : env.length + 1 ≤ F') :
-    resetDefault env F fs vs = resetDefault env F' fs vs := by
-  obtain ⟨hle, hrefs⟩ := hac S fs hfind
-  exact resetDefault_acyclic env rk hac F (rk S) F' fs vs hrefs (by omega) (by omega)
+    (hF : rk S < F) (hF' : rk S < F') :
+    resetDefault env F fs vs = resetDefault env F' fs vs :=
+  resetDefault_acyclic env rk hac F (rk S) F' fs vs (hac S fs hfind).2 hF hF'
+
+theorem decFuel_ge_six (env : Env) (r : Reader) : 6 ≤ decFuel env r := by
+  unfold decFuel
+  calc 6 = 3 * 2 := rfl
+    _ ≤ (env.width + 3) * (r.data.size + 2) := Nat.mul_le_mul (by omega) (by omega)
 
 /-! ### the reader state at each member -/
 
